@@ -3,7 +3,7 @@ import itertools, os, re, subprocess
 from vlib import Case, Stream, BUILD, model_cmd
 
 ID = "C16"
-LEAN_MODULES = ["HgVerif.Props.C16", "HgVerif.Model.Tie2", "HgVerif.Model.Extracted"]
+LEAN_MODULES = ["HgVerif.Props.C16", "HgVerif.Props.C16N", "HgVerif.Model.Tie2", "HgVerif.Model.Extracted"]
 USES_EXTRACT = True
 THEOREMS = ["HgVerif.Tie.tie_pqFull",
     
@@ -16,15 +16,31 @@ THEOREMS = ["HgVerif.Tie.tie_pqFull",
     "HgVerif.PushQueue.blocking_fails_only_if_stopped", "HgVerif.PushQueue.blocked_sender_released",
     "HgVerif.PushQueue.progress", "HgVerif.PushQueue.eventually_delivered",
     "HgVerif.PushQueue.conflating_delivers_latest",
+    # several push sources sharing ONE executor flag (Model/PushQueueN.lean)
+    "HgVerif.PushQueueN.inv_reach",
+    "HgVerif.PushQueueN.delivered_prefix_of_accepted_n", "HgVerif.PushQueueN.per_producer_order_n",
+    "HgVerif.PushQueueN.delivered_once_n", "HgVerif.PushQueueN.pending_le_capacity_n",
+    "HgVerif.PushQueueN.no_lost_wakeup_n", "HgVerif.PushQueueN.idle_loop_has_nothing_undelivered",
+    "HgVerif.PushQueueN.try_send_refused_iff_full_or_stopped_n", "HgVerif.PushQueueN.blocking_fails_only_if_stopped_n",
+    "HgVerif.PushQueueN.nothing_accepted_after_stop_n", "HgVerif.PushQueueN.conflating_delivers_latest_n",
+    "HgVerif.PushQueueN.progress_n", "HgVerif.PushQueueN.eventually_delivered_n",
+    "HgVerif.PushQueueN.per_source_sampling_loses_wakeup", "HgVerif.PushQueueN.one_reset_per_cycle_keeps_wakeup",
 ]
-CXX_TARGETS = ["hgv_push"]
+CXX_TARGETS = ["hgv_push", "hgv_pushn"]
 RULE = ("schedules of whole operations (start, try_send / send_blocking from producers 1-3, evaluation cycles, "
         "request_stop, graph stop) against a real push source of capacity 0 (unbounded), 1, 2 or 3 with policy queue, "
         "burst or conflating; sends run on their own threads, a send_blocking at capacity stays parked until a cycle "
         "or the stop releases it (at most one parked sender at a time); thorough adds every order of 2 producers x 2 "
         "messages x 4 cycles for capacities 0,1,2; a second, monitor-only stream runs 2-6 REAL producer threads against the "
-        "real run loop (no hooks, OS-chosen interleavings). A case is non-trivial when values of >= 2 producers were delivered, "
-        "or a sender parked, or a send was refused at capacity; distinct by sha1 of the case text")
+        "real run loop (no hooks, OS-chosen interleavings). Streams multi / multi-threads: graphs with 1-3 push sources "
+        "(independent policy and capacity each) sharing the one executor flag: sends address a source, cycles are driven by "
+        "hand (c) or as the loop would (L: cycles while the flag is raised), with backlogs of >= 2 values on a queue source "
+        "that is NOT the last of the push prefix, bounded sources kept full by try_send, producers on several sources, one "
+        "parked sender per source; thorough adds every order of <= 3 messages on 2 sources x 4 cycles for 12 capacity / send-kind "
+        "configurations; multi-threads runs the real loop with one real producer thread per source. A case is non-trivial "
+        "when values of >= 2 producers were delivered, or a sender parked, or a send was refused at capacity, or (multi) a "
+        "non-last queue source entered a cycle with >= 2 pending or >= 2 sources delivered in one cycle; distinct by sha1 "
+        "of the case text")
 TRUSTED = [
     "C++ memory model, std::mutex / condition_variable semantics, thread scheduling: the harness executes the "
     "mutex-protected sections one after the other in schedule order (no source hooks); interleavings INSIDE one "
@@ -39,7 +55,11 @@ ASSUMPTIONS = [
     "eventually_delivered: weak fairness of every thread's steps, no stop request and no graph stop later, and the "
     "evaluation thread keeps starting cycles while the flag is set (C17 rt_no_missed_signal / rt_at_exact_T)",
     "strictly increasing cycle times are the run loop's (C17 rt_times_strict); here time only needs to increase per cycle",
-    "one push source node; restart after stop is not supported by design (graph.cpp) and not modelled",
+    "restart after stop is not supported by design (graph.cpp) and not modelled; push source nodes are never scheduled "
+    "(scheduled_now in the push phase is not modelled); the graph start / stop of several sources is modelled as the "
+    "sources starting / stopping one after the other, cycles only while all of them run",
+    "eventually_delivered_n: as eventually_delivered, for every source; an execution in which some source of the push "
+    "prefix is never started has no cycle and is not fair in the sense of Exec.Fair once the flag is set",
 ]
 TECHNIQUE = ("Lean 4 proof (inductive invariants over all interleavings of a labelled transition system whose atomic "
              "steps are the mutex-protected sections; weak-fairness liveness by a ranking argument) with differential "
@@ -50,7 +70,12 @@ LEVEL_TEXT = ("Kernel-checked invariants over ALL interleavings, any number of p
               "source is closed/stop-requested/not accepting or the bounded queue is full, a blocking send fails only "
               "for the first three reasons, nothing is accepted once the policy stopped, and no lost wake-up "
               "(non-empty queue => flag set or a producer between admission and mark or the consumer between reset and "
-              "re-arm, or stop requested); under weak fairness every accepted value is delivered.")
+              "re-arm, or stop requested); under weak fairness every accepted value is delivered.  The same for ANY number "
+              "of push sources sharing the one executor flag (per-source prefix / order / once / capacity / refusals / stop; "
+              "shared-flag no-lost-wake-up: a pending value on any source k => flag set, or a mark due on some source, or "
+              "the cycle in progress has not evaluated k yet, or a re-arm is owed, or stop requested; under weak fairness "
+              "every accepted value of every source is delivered), with a kernel-checked witness that sampling the flag "
+              "per source instead of once per cycle loses a wake-up.")
 LEVEL_NOTE = ("Proof of the protocol logic; PARTIAL for the runtime remainder: the C++ memory model, condition-variable "
               "behaviour and real thread scheduling are trusted. The step function of the model is tied to "
               "push_source_node.cpp / executor.cpp / graph.cpp by composing it per operation and comparing with the real "
@@ -182,10 +207,11 @@ def streams(rng, tier, seed):
         ex = exhaustive(len(cases))
         cases += [ex[i] for i in sorted(rng.sample(range(len(ex)), 120))]
     cdir = os.path.join(os.path.dirname(os.path.dirname(os.path.dirname(os.path.abspath(__file__)))), "corpus", "C16")
-    corpus = []
+    corpus, mcorpus = [], []
     if os.path.isdir(cdir):
         for f in sorted(os.listdir(cdir)):
-            corpus.append(Case([l.rstrip("\n") for l in open(os.path.join(cdir, f)) if l.strip()], {"kind": "corpus"}))
+            c = Case([l.rstrip("\n") for l in open(os.path.join(cdir, f)) if l.strip()], {"kind": "corpus"})
+            (mcorpus if f.startswith("multi_") else corpus).append(c)
     # real threads against the real run loop (no hooks, no model: monitor only)
     stress = []
     for i in range(16 if q else 300):
@@ -198,7 +224,141 @@ def streams(rng, tier, seed):
     if have_points():
         nested = [gen_nested(rng, 200000 + i) for i in range(300 if q else 8000)]
         out.append(Stream("push-points", [os.path.join(BUILD, "hgv_push")], model_cmd("C16"), nested, timeout=1800))
+    # several push sources in one graph, one shared executor flag
+    multi = [gen_multi(rng, 300000 + i) for i in range(360 if q else 9000)]
+    mex = multi_exhaustive(400000)
+    multi += mex if not q else [mex[i] for i in sorted(rng.sample(range(len(mex)), 100))]
+    out.append(Stream("multi", [os.path.join(BUILD, "hgv_pushn")], model_cmd("C16N"), mcorpus + multi, timeout=1800))
+    mstress = []
+    for i in range(8 if q else 150):
+        k = rng.choice([2, 2, 3])
+        caps = [rng.choice([0, 1, 2, 2, 3, 8]) for _ in range(k)]
+        mstress.append(Case(["case %d" % (500000 + i),
+                             "stressn %d %d %s" % (rng.choice([30, 120, 300]), rng.choice([0, 1, 2]), " ".join(map(str, caps)))],
+                            {"kind": "multi-threads"}))
+    out.append(Stream("multi-threads", [os.path.join(BUILD, "hgv_pushn")], None, mstress, timeout=1800))
     return out
+
+
+# ---------------------------------------------------------------- several push sources: generator
+
+def gen_multi(rng, idx):
+    """a graph with 1-3 push sources; sends address a source; cycles by hand (c) or as the loop (L)"""
+    k = rng.choice([1, 2, 2, 2, 2, 3, 3, 3])
+    pol = [rng.choice(["q"] * 7 + ["b", "b", "c"]) for _ in range(k)]
+    if k > 1 and rng.random() < 0.75:
+        pol[rng.randrange(k - 1)] = "q"                      # a queue source that is not the last one
+    cap = [rng.choice([0, 0, 1, 2, 2, 3]) for _ in range(k)]
+    steps = []
+    v = [0]
+
+    def val():
+        v[0] += 1
+        return v[0]
+    nonlast_q = [s for s in range(k - 1) if pol[s] == "q"]
+    bounded = [s for s in range(k) if cap[s] > 0 and pol[s] != "c"]
+    parked = [None] * k
+    rstop = stopped = False
+
+    def free(s):
+        return [p for p in (1, 2, 3) if p != parked[s]]
+
+    def pick_source():
+        if nonlast_q and rng.random() < 0.55:
+            return rng.choice(nonlast_q)
+        return rng.randrange(k)
+    if rng.random() < 0.1:
+        steps.append("%s%d.%d:%d" % (rng.choice("tb"), rng.randrange(k), rng.randint(1, 3), val()))     # before start: refused
+    steps.append("S")
+    for _ in range(rng.randint(5, 24)):
+        r = rng.random()
+        if r < 0.14 and nonlast_q:
+            # a backlog on a queue source that is followed by another push source
+            s = rng.choice(nonlast_q)
+            for _ in range(rng.randint(2, 4)):
+                steps.append("t%d.%d:%d" % (s, rng.choice(free(s)), val()))
+            if rng.random() < 0.6:
+                s2 = rng.choice([x for x in range(k) if x != s])
+                steps.append("t%d.%d:%d" % (s2, rng.choice(free(s2)), val()))
+            steps.append(rng.choice(["c", "L", "L"]))
+            if not rstop:
+                parked = [None] * k
+        elif r < 0.24 and bounded:
+            # keep a bounded source full by try_send: fill until refused, one cycle's worth of loop, refill
+            s = rng.choice(bounded)
+            for _ in range(rng.randint(1, 3)):
+                for _ in range(cap[s] + 1):
+                    steps.append("t%d.%d:%d" % (s, rng.choice(free(s)), val()))
+                steps.append(rng.choice(["c", "c", "L"]))
+                if not rstop:
+                    parked = [None] * k
+        elif r < 0.50:
+            s = pick_source()
+            steps.append("t%d.%d:%d" % (s, rng.choice(free(s)), val()))
+        elif r < 0.62:
+            s = pick_source()
+            if parked[s] is None:
+                p = rng.choice(free(s))
+                steps.append("b%d.%d:%d" % (s, p, val()))
+                if cap[s] > 0 and pol[s] != "c" and not stopped and not rstop:
+                    parked[s] = p
+            else:
+                steps.append("c")
+                if not rstop:
+                    parked = [None] * k
+        elif r < 0.80:
+            steps.append("c")
+            if not rstop:
+                parked = [None] * k
+        elif r < 0.92:
+            steps.append("L")
+            if not rstop:
+                parked = [None] * k
+        elif r < 0.94:
+            steps.append("r"); rstop = True
+        elif r < 0.975:
+            steps.append("X"); stopped = True; parked = [None] * k
+        else:
+            steps.append("S")
+    if not stopped and not rstop and rng.random() < 0.7:
+        steps.append("L")                                    # let the loop run until it goes idle
+    cfg = " ".join("%d %s" % (cap[s], pol[s]) for s in range(k))
+    return Case(["case %d" % idx, "cfgn " + cfg, "sched " + " ".join(steps)], {"kind": "multi-random"})
+
+
+def multi_exhaustive(idx0):
+    """two queue sources, every split of <= 3 messages over them (program order kept per source), every
+    order of the sends and 4 cycles, then the loop until idle; capacities (0|1|2) x (0|1), sends to
+    source 0 non-blocking or blocking (at most one sender parked per source)"""
+    cases, idx = [], idx0
+    splits = [(m0, m1) for m0 in range(0, 4) for m1 in range(0, 4) if 1 <= m0 + m1 <= 3 and m0 >= 1]
+    for cap0 in (0, 1, 2):
+        for cap1 in (0, 1):
+            for kind0 in "tb":
+                for (m0, m1) in splits:
+                    items = ["A"] * m0 + ["B"] * m1 + ["c"] * 4
+                    for o in sorted(set(itertools.permutations(items))):
+                        a = iter(["%s0.%d:%d" % (kind0, j + 1, j + 1) for j in range(m0)])
+                        b = iter(["t1.1:%d" % (10 + j) for j in range(m1)])
+                        steps, parked, ok = ["S"], False, True
+                        for x in o:
+                            if x == "c":
+                                steps.append("c"); parked = False
+                            elif x == "B":
+                                steps.append(next(b))
+                            else:
+                                s = next(a)
+                                if s[0] == "b":
+                                    if parked:
+                                        ok = False; break
+                                    parked = cap0 > 0
+                                steps.append(s)
+                        if ok:
+                            steps.append("L")
+                            cases.append(Case(["case %d" % idx, "cfgn %d q %d q" % (cap0, cap1), "sched " + " ".join(steps)],
+                                              {"kind": "multi-exhaustive"}))
+                            idx += 1
+    return cases
 
 
 # ---------------------------------------------------------------- monitor
@@ -438,14 +598,354 @@ def _analyse(case, out):
     return bad, feats
 
 
+# ---------------------------------------------------------------- several push sources: monitor
+
+_MPART = re.compile(r"^(\S+)((?: \+\S+)*) p([\d,]+) f([01])$")
+_MSEND = re.compile(r"^([tb])(\d+)\.(\d+):(\d+)=(\S+)$")
+_MCOMP = re.compile(r"^b(\d+)\.(\d+):(\d+)=(\S)$")
+_MCYCLE = re.compile(r"^c(\d+):(\S+)$")
+
+
+class _MState:
+    """what the C16 obligations need, per source, recomputed from the implementation's output alone"""
+
+    def __init__(self, caps, pols):
+        self.k = len(caps)
+        self.cap, self.pol = caps, pols
+        self.started = self.stopped = self.rstop = False
+        self.accepted = [[] for _ in caps]
+        self.delivered = [[] for _ in caps]
+        self.times = [[] for _ in caps]
+        self.parked = [dict() for _ in caps]
+        self.p = [0] * self.k
+        self.f = 0
+        self.last_cycle = 0
+        self.bad, self.feats = [], set()
+        self.senders = set()
+
+    def bounded(self, s):
+        return self.cap[s] > 0 and self.pol[s] != "c"
+
+    def running(self):
+        return self.started and not self.stopped
+
+    def completion(self, txt, where):
+        if txt == "stuck":
+            self.bad.append("[blocking] a parked sender was not released although its queue has room or the source stopped (%s)" % where)
+            return
+        m = _MCOMP.match(txt)
+        if not m:
+            self.bad.append("[trace] completion %r" % txt)
+            return
+        s, prod, val, r = int(m.group(1)), int(m.group(2)), int(m.group(3)), m.group(4)
+        if s >= self.k:
+            self.bad.append("[trace] completion on source %d" % s)
+            return
+        self.parked[s].pop(prod, None)
+        if r == "1":
+            self.accepted[s].append(val)
+            self.p[s] += 1
+            self.feats.add("parked-sender-admitted")
+            if s < self.k - 1:
+                self.feats.add("parked-nonlast-admitted")
+            if self.stopped:
+                self.bad.append("[stop] source %d: parked %d accepted after the stop" % (s, val))
+        elif r == "0":
+            self.feats.add("parked-sender-failed")
+            if not self.stopped:
+                self.bad.append("[blocking] source %d: parked send of %d failed although the source has not stopped" % (s, val))
+        else:
+            self.bad.append("[blocking] source %d: parked send of %d threw" % (s, val))
+
+    def cycle(self, txt, in_loop):
+        m = _MCYCLE.match(txt)
+        if not m:
+            self.bad.append("[trace] unreadable cycle %r" % txt)
+            return False
+        t, body = int(m.group(1)), m.group(2)
+        parts = body.split("+")
+        ds = parts[0].split("/")
+        if len(ds) != self.k:
+            self.bad.append("[trace] cycle %d reports %d sources" % (t, len(ds)))
+            return False
+        if not self.running() or self.rstop:
+            self.bad.append("[once] cycle %d ran while the graph was not running" % t)
+        if t <= self.last_cycle:
+            self.bad.append("[once] cycle time %d not after %d" % (t, self.last_cycle))
+        self.last_cycle = t
+        delivering = 0
+        for s, d in enumerate(ds):
+            if self.pol[s] == "q" and s < self.k - 1 and self.p[s] >= 2:
+                self.feats.add("backlog-nonlast-queue")
+                if self.f == 1:
+                    self.feats.add("rearm-nonlast")
+            if d == "-":
+                if self.p[s] > 0 and self.f == 1:
+                    self.bad.append("[lost] cycle %d: source %d had %d pending value(s) and the flag was set but it delivered nothing"
+                                    % (t, s, self.p[s]))
+                continue
+            delivering += 1
+            if d.startswith("["):
+                if "],[" in d:
+                    self.bad.append("[once] source %d delivered twice in cycle %d: %s" % (s, t, d))
+                vs = _vals(d.split("],[")[0] + ("]" if "],[" in d else ""))
+            else:
+                if "," in d:
+                    self.bad.append("[once] source %d delivered twice in cycle %d: %s" % (s, t, d))
+                vs = _vals(d.split(",")[0])
+            if self.pol[s] == "q" and len(vs) != 1:
+                self.bad.append("[once] source %d (queue policy) delivered %d values in cycle %d" % (s, len(vs), t))
+            if len(vs) > 1:
+                self.feats.add("burst-tuple")
+            if self.times[s] and t <= self.times[s][-1]:
+                self.bad.append("[once] source %d: delivery time %d not after %d" % (s, t, self.times[s][-1]))
+            self.times[s].append(t)
+            self.delivered[s].extend(vs)
+            self.p[s] = max(0, self.p[s] - len(vs))
+        self.feats.add("cycle-delivers" if delivering else "cycle-empty")
+        if delivering >= 2:
+            self.feats.add("multi-source-cycle")
+        for c in parts[1:]:
+            self.completion(c, "cycle %d" % t)
+        return True
+
+    def event(self, text):
+        """one step's own effect; False when unreadable"""
+        bad, feats = self.bad, self.feats
+        if text in ("S", "S=-"):
+            if text == "S":
+                self.started = True
+            return True
+        if text in ("X", "X=-"):
+            if text == "X":
+                self.stopped = True
+            return True
+        if text == "r":
+            self.rstop = True
+            return True
+        if text in ("c:-", "L:-"):
+            if self.running() and not self.rstop:
+                bad.append("[trace] %s although the graph is running" % text)
+            return True
+        if text.startswith("c"):
+            ok = self.cycle(text, False)
+            self.after_cycle = True
+            return ok
+        if text.startswith("L"):
+            m = re.match(r"^L(\d+)\[(.*)\]$", text)
+            if not m:
+                bad.append("[trace] unreadable loop %r" % text)
+                return False
+            n, body = int(m.group(1)), m.group(2)
+            cycles = [c for c in body.split(";") if c]
+            if len(cycles) != n:
+                bad.append("[trace] loop reports %d cycles, lists %d" % (n, len(cycles)))
+            if n > 0 and self.f == 0:
+                bad.append("[trace] the loop ran although the flag was clear")
+            for c in cycles:
+                if not self.cycle(c, True):
+                    return False
+                self.f = 1          # inside the loop every further cycle starts because the flag is raised
+            feats.add("loop-%s" % ("0" if n == 0 else "1" if n == 1 else "2-5" if n <= 5 else "6+"))
+            if n >= 2:
+                feats.add("loop-drains-backlog")
+            self.loop_cycles = n
+            return True
+        m = _MSEND.match(text)
+        if not m:
+            bad.append("[trace] unreadable step %r" % text)
+            return False
+        kind, s, prod, val, res = m.group(1), int(m.group(2)), int(m.group(3)), int(m.group(4)), m.group(5)
+        if s >= self.k:
+            bad.append("[trace] send to source %d" % s)
+            return False
+        full = self.bounded(s) and self.p[s] >= self.cap[s]
+        stopped_like = (not self.started) or self.stopped or self.rstop
+        if res == "1":
+            self.accepted[s].append(val)
+            self.senders.add((s, prod))
+            feats.add("accepted-%s" % ("try" if kind == "t" else "blocking"))
+            if stopped_like:
+                bad.append("[stop] source %d: %s accepted although the source is %s"
+                           % (s, text, "not started" if not self.started else "stopped"))
+            if full:
+                bad.append("[cap] source %d: %s accepted although %d value(s) were pending (capacity %d)" % (s, text, self.p[s], self.cap[s]))
+        elif res == "0":
+            if kind == "t":
+                if not (stopped_like or full):
+                    bad.append("[refused] source %d: %s refused although running with %d pending (capacity %d)"
+                               % (s, text, self.p[s], self.cap[s]))
+                feats.add("refused-full" if (full and not stopped_like) else "refused-stopped")
+                if full and not stopped_like and s < self.k - 1:
+                    feats.add("full-nonlast")
+            else:
+                if not stopped_like:
+                    bad.append("[blocking] source %d: %s failed although the source has not stopped" % (s, text))
+                feats.add("blocking-failed-stopped")
+        elif res == "B":
+            self.parked[s][prod] = val
+            feats.add("sender-parked")
+            if s < self.k - 1:
+                feats.add("parked-nonlast")
+            if not full or stopped_like:
+                bad.append("[blocking] source %d: %s parked although the queue is not at capacity / not running" % (s, text))
+        elif res == "busy":
+            feats.add("busy")
+        else:
+            bad.append("[trace] send result %r" % res)
+        return True
+
+    def status(self, st, p, f):
+        """checks on the state reported after a step (every thread is idle between two steps)"""
+        bad = self.bad
+        running = self.running()
+        for s in range(self.k):
+            if self.bounded(s) and p[s] > self.cap[s]:
+                bad.append("[cap] source %d: %d values pending with capacity %d after %s" % (s, p[s], self.cap[s], st))
+            if running and self.pol[s] != "c" and p[s] != len(self.accepted[s]) - len(self.delivered[s]):
+                bad.append("[prefix] source %d: pending_items %d but accepted-delivered = %d after %s"
+                           % (s, p[s], len(self.accepted[s]) - len(self.delivered[s]), st))
+            if running and not self.rstop and p[s] > 0 and f == 0:
+                bad.append("[lost] source %d holds %d accepted undelivered value(s), every thread is idle and the executor "
+                           "flag is clear after %s: the loop sleeps and nothing will wake it" % (s, p[s], st))
+            if running and not self.rstop and self.parked[s] and not (self.bounded(s) and p[s] >= self.cap[s]):
+                bad.append("[blocking] source %d: sender still parked with room in the queue after %s" % (s, st))
+        if running and not self.rstop and f == 1 and not any(p) and (st.startswith("c") or st.startswith("L")) and st not in ("c:-", "L:-"):
+            bad.append("[spin] the executor flag is still raised after %s although no source holds a value: the loop spins" % st[:12])
+        if st.startswith("L") and getattr(self, "loop_cycles", 0) >= 40 and f == 1:
+            bad.append("[spin] the loop did not go idle within 40 cycles")
+        self.p, self.f = list(p), f
+
+
+def _analyse_mstress(case, out):
+    bad, feats = [], {"kind-multi-threads"}
+    line = next((o for l, o in zip(case.lines, out) if l.startswith("stressn")), None)
+    if not line or not line.startswith("stressn "):
+        return ["[trace] no stress output: %r" % (line,)], feats
+    kv = dict(x.split("=", 1) for x in line.split()[1:] if "=" in x)
+    try:
+        sent = [int(x) for x in kv["sent"].split("/")]
+        delivered = [int(x) for x in kv["delivered"].split("/")]
+        maxpend = [int(x) for x in kv["maxpend"].split("/")]
+        caps = [int(x) for x in kv["caps"].split("/")]
+        messages, failed = int(kv["messages"]), int(kv["failed"])
+    except Exception:
+        return ["[trace] unreadable stress output %r" % line[:100]], feats
+    if "run_error" in kv:
+        bad.append("[trace] run() threw: " + kv["run_error"][:80])
+    if failed:
+        bad.append("[blocking] %d blocking send(s) failed although no source had stopped" % failed)
+    for s in range(len(caps)):
+        if kv["timeout"] == "1" or delivered[s] != sent[s] or sent[s] != messages:
+            bad.append("[lost] source %d: %d of %d accepted values delivered (%d to send) with the run still going: the real "
+                       "loop went to sleep on a backlog (one real producer thread per source)" % (s, delivered[s], sent[s], messages))
+            break
+    for s in range(len(caps)):
+        if caps[s] > 0 and maxpend[s] > caps[s]:
+            bad.append("[cap] source %d: %d values pending with capacity %d (real threads)" % (s, maxpend[s], caps[s]))
+    if int(kv["dup"]):
+        bad.append("[once] %s value(s) delivered twice (real threads)" % kv["dup"])
+    if int(kv["order_bad"]):
+        bad.append("[prefix] a source's delivery order differs from its producer's send order (%s places)" % kv["order_bad"])
+    if int(kv["time_bad"]):
+        bad.append("[once] a source's delivery times are not strictly increasing (%s places)" % kv["time_bad"])
+    feats.add("threads-sources-%d" % len(caps))
+    feats.add("threads-refused-" + kv.get("refused", "?"))
+    if any(maxpend[s] >= 2 for s in range(len(caps) - 1)):
+        feats.add("threads-backlog-nonlast")
+    return bad, feats
+
+
+def _analyse_multi(case, out):
+    if any(l.startswith("stressn") for l in case.lines):
+        return _analyse_mstress(case, out)
+    caps, pols, line = None, None, None
+    for ln, o in zip(case.lines, out):
+        w = ln.split()
+        if w and w[0] == "cfgn":
+            caps = [int(x) for x in w[1::2]]
+            pols = w[2::2]
+        if w and w[0] == "sched":
+            line = o
+    if line is None or caps is None:
+        return ["[trace] no schedule output"], set()
+    if line == "bad-op" or line.startswith("err:") or line.startswith("<"):
+        return ["[trace] harness rejected the schedule: " + line[:80]], set()
+    S = _MState(caps, pols)
+    bad, feats = S.bad, S.feats
+    parts = line.split(" | ")
+    for part in parts[:-1]:
+        m = _MPART.match(part)
+        if not m:
+            return ["[trace] unreadable step %r" % part[:60]], feats
+        outer, extra = m.group(1), m.group(2)
+        try:
+            p, f = [int(x) for x in m.group(3).split(",")], int(m.group(4))
+        except ValueError:
+            return ["[trace] unreadable status in %r" % part[:60]], feats
+        if len(p) != S.k:
+            return ["[trace] status reports %d sources" % len(p)], feats
+        if not S.event(outer):
+            return bad, feats
+        for e in extra.split():
+            S.completion(e[1:], outer[:12])
+        S.status(outer, p, f)
+    k = S.k
+    for s in range(k):
+        acc, dlv = S.accepted[s], S.delivered[s]
+        if pols[s] == "c":
+            it = iter(acc)
+            if not all(any(x == y for y in it) for x in dlv):
+                bad.append("[prefix] source %d: conflated deliveries %s are not a subsequence of accepted %s" % (s, dlv[:8], acc[:8]))
+        elif dlv != acc[:len(dlv)]:
+            bad.append("[prefix] source %d: delivered %s is not a prefix of accepted %s" % (s, dlv[:8], acc[:8]))
+        if len(set(dlv)) != len(dlv):
+            bad.append("[once] source %d: a value was delivered twice: %s" % (s, dlv[:10]))
+    tail = parts[-1]
+    m = re.match(r"^end((?: \+\S+)*) accepted=(\S+) delivered=(.*)$", tail)
+    if not m:
+        bad.append("[trace] unreadable summary %r" % tail[:80])
+    else:
+        for e in m.group(1).split():
+            m2 = _MCOMP.match(e[1:])
+            if e == "+stuck" or (m2 and m2.group(4) != "0"):
+                bad.append("[blocking] at the final stop a parked sender was %s" % ("not released" if e == "+stuck" else "accepted"))
+        acc2 = [[int(x) for x in a.strip("[]").split(",") if x] for a in m.group(2).split("/")]
+        if acc2 != S.accepted:
+            bad.append("[trace] summary accepted %s differs from the per-step results %s" % (acc2, S.accepted))
+    if len({s for (s, _) in S.senders}) >= 2:
+        feats.add("producers-on-several-sources")
+    if len({pr for (s, pr) in S.senders if s == 0}) >= 2:
+        feats.add("multi-producer-one-source")
+    feats.add("multi-sources-%d" % k)
+    feats.add("multi-policies-" + "".join(sorted(set(pols))))
+    feats.add("kind-" + case.meta.get("kind", "multi"))
+    if S.stopped:
+        feats.add("graph-stop")
+    if S.rstop:
+        feats.add("request-stop")
+    return bad, feats
+
+
+def _is_multi(stream, case):
+    return stream.startswith("multi") or any(l.startswith("cfgn") or l.startswith("stressn") for l in case.lines)
+
+
 def monitor(stream, case, out):
+    if _is_multi(stream, case):
+        return _analyse_multi(case, out)[0][:3]
     return _analyse(case, out)[0][:3]
 
 
 def features(stream, case, out):
+    if _is_multi(stream, case):
+        return sorted(_analyse_multi(case, out)[1])
     return sorted(_analyse(case, out)[1])
 
 
 def nontrivial(stream, case, out):
+    if _is_multi(stream, case):
+        f = _analyse_multi(case, out)[1]
+        return bool(f & {"backlog-nonlast-queue", "multi-source-cycle", "sender-parked", "refused-full", "kind-multi-threads"})
     f = _analyse(case, out)[1]
     return bool(f & {"multi-producer-delivery", "sender-parked", "refused-full", "kind-threads"})
